@@ -65,14 +65,20 @@ class Ctx:
         self.node = {"sp": res["fn"]["sp"]}
         self.count = 0
 
-    def ob(self, kind, what, goal, ok, st, method="spec"):
+    def ob(self, kind, what, goal, ok, st, method="spec", actual=None):
         self.count += 1
+        status = None
+        if not ok and kind == "ENS" and actual is not None and imprecise(actual):
+            # the analysis summarised the value (loop invariant inference / unknown call result): the
+            # declared shape can neither be confirmed nor refuted -> not decided (no alarm)
+            status = "undecided"
         self.I.oblige(kind, self.fr, self.node, what, goal, ok, method if ok else "",
-                      detail="" if ok else self.I.describe(st))
+                      detail="" if ok else self.I.describe(st), status=status)
 
     def teq(self, st, what, a, b):
         ok = terms_equal(st, a, b)
-        self.ob("ENS", what, f"{show_term(normalise(st, a))[:300]} ≡ {show_term(normalise(st, b))[:300]}", ok, st)
+        self.ob("ENS", what, f"{show_term(normalise(st, a))[:300]} ≡ {show_term(normalise(st, b))[:300]}", ok, st,
+                actual=a)
 
     def teq_any(self, st, what, a, options):
         ok = any(terms_equal(st, a, b) for b in options)
@@ -81,7 +87,7 @@ class Ctx:
 
     def eq(self, st, what, a, b):
         a, b = as_poly(a), as_poly(b)
-        self.ob("ENS", what, f"{show_poly(a)} == {show_poly(b)}", st.eq(a, b), st)
+        self.ob("ENS", what, f"{show_poly(a)} == {show_poly(b)}", st.eq(a, b), st, actual=a)
 
     def acc(self, st, what, conds):
         """ACC: on a success outcome the documented acceptance condition is entailed."""
@@ -121,6 +127,22 @@ class Ctx:
                     break
         txt = "; ".join(cond_txt(c) for c in conds)
         self.ob("REJ", what, f"rejects only when not({txt})", infeasible, st)
+
+
+IMPRECISE = ("loopvar", "top", "top-iter", "user-iter", "maybe-updated", "prefix")
+
+
+def imprecise(x):
+    """Does a term / polynomial mention a leaf that stands for a summarised (not exactly known) value?"""
+    if isinstance(x, Poly):
+        return any(imprecise(a) for a in x.atoms())
+    if isinstance(x, tuple):
+        if x and isinstance(x[0], str) and x[0] in IMPRECISE:
+            return True
+        if len(x) == 2 and x[0] == "v" and isinstance(x[1], str) and x[1].startswith("top:"):
+            return True
+        return any(imprecise(y) for y in x)
+    return False
 
 
 def cond_txt(c):
@@ -1508,3 +1530,117 @@ def lax_delete_nodes_witness(c, a, st, v):
          f"adjacency ≡ map(e -> filter_map through the renumber map): got {show_term(got)[:300]}", ok or L == EMPTY, st)
     c.eq(st, "delete_nodes_witness: the reported map has one entry per old node", t_len(v.t), t_len(f.f["nodes"].t))
     c.teq(st, "delete_nodes_witness: hyperedge labels untouched", p.f["edges"].t, f.f["edges"].t)
+
+
+# ------------------------------------------------------------------ predicates: exact on the cases the code shape decides
+
+def bool_iff(c, st, v, expected, what):
+    """The boolean outcome v equals the formula `expected` on this path (both directions)."""
+    f = v.f if isinstance(v, VBool) else None
+    if f is None:
+        c.ob("ENS", what, "boolean result expected", False, st)
+        return
+    bad1 = c.I.assume(st.copy(), f_and(f, f_not(expected)))
+    bad2 = c.I.assume(st.copy(), f_and(f_not(f), expected))
+    ok = not bad1 and not bad2
+    c.ob("ENS", what, f"result ⇔ {show_formula(expected)} (got {show_formula(f)})", ok, st)
+
+
+def injective_formula(st, ff_):
+    """Injectivity in terms of occurrence counts: empty, or every value occurs at most once."""
+    n = t_len(tab(ff_))
+    m = Poly.atom(("max", ("bincount", tab(ff_), tgt(ff_))))
+    if st.eq(n, 0):
+        return ("true",)
+    return ("cmp", "ge", Poly.const(1) - m)
+
+
+def path_has_atom(st, atom):
+    for k, p in st.lin.facts:
+        if atom in p.atoms():
+            return True
+    return False
+
+
+@spec(f"{FFN}::<K>::is_injective")
+def ff_is_injective(c, a, st, v):
+    f = a["self"]
+    n = t_len(tab(f))
+    if st.eq(n, 0):
+        bool_iff(c, st, v, ("true",), "is_injective: a function from the empty set is injective")
+        return
+    m = ("max", ("bincount", tab(f), tgt(f)))
+    if path_has_atom(st, m) or (isinstance(v, VBool) and m in _formula_atoms_set(v.f)):
+        bool_iff(c, st, v, ("cmp", "ge", Poly.const(1) - Poly.atom(m)),
+                 "is_injective ⇔ no value of the codomain is hit more than once")
+
+
+def _formula_atoms_set(f):
+    out = set()
+    if isinstance(f, tuple):
+        for x in f:
+            if isinstance(x, Poly):
+                out |= x.atoms()
+            elif isinstance(x, tuple):
+                out |= _formula_atoms_set(x)
+    return out
+
+
+@spec("strict::hypergraph::arrow::HypergraphArrow::<K, O, A>::is_monomorphism")
+def arrow_is_mono(c, a, st, v):
+    arr = a["self"]
+    e = ("true",)
+    decidable = True
+    for leg in ("w", "x"):
+        f = arr.f[leg]
+        if st.eq(t_len(tab(f)), 0):
+            continue
+        m = ("max", ("bincount", tab(f), tgt(f)))
+        if not (path_has_atom(st, m) or (isinstance(v, VBool) and m in _formula_atoms_set(v.f))):
+            if isinstance(v, VBool) and v.f == ("false",):
+                # short-circuit: the other map already decided; nothing to say about this one
+                decidable = False
+                continue
+            decidable = False
+            continue
+        e = f_and(e, ("cmp", "ge", Poly.const(1) - Poly.atom(m)))
+    if decidable:
+        bool_iff(c, st, v, e, "is_monomorphism ⇔ both maps hit no value more than once (empty maps are injective)")
+    elif isinstance(v, VBool) and v.f == ("true",):
+        c.ob("ENS", "is_monomorphism: true only when both maps were examined", "true ⇒ both injectivity tests on the path", False, st)
+
+
+@spec(f"{S_OH}::<K, O, A>::is_monogamous")
+def oh_is_monogamous(c, a, st, v):
+    f = a["self"]
+    nw = inv.values_len(f.f["h"].f["w"])
+    if st.eq(nw, 0):
+        bool_iff(c, st, v, ("true",), "is_monogamous: the diagram without nodes is monogamous (vacuously)")
+
+
+@spec("acyclic::<impl strict::hypergraph::object::Hypergraph<K, O, A>>::is_acyclic", f"{S_OH}::<K, O, A>::is_acyclic")
+def h_is_acyclic(c, a, st, v):
+    s_ = a["self"]
+    h = s_.f["h"] if s_.ty == inv.SOH else s_
+    if st.eq(inv.values_len(h.f["w"]), 0):
+        bool_iff(c, st, v, ("true",), "is_acyclic: no nodes, no cycle")
+    elif st.eq(inv.values_len(h.f["x"]), 0):
+        # no hyperedges: nothing can reach anything
+        flags = kahn_flags(st)
+        if not flags:
+            return
+
+
+@spec("strict::hypergraph::arrow::HypergraphArrow::<K, O, A>::is_convex_subgraph")
+def arrow_is_convex(c, a, st, v):
+    arr = a["self"]
+    if st.eq(t_len(tab(arr.f["w"])), 0) and st.eq(t_len(tab(arr.f["x"])), 0):
+        bool_iff(c, st, v, ("true",), "is_convex_subgraph: the empty sub-hypergraph is convex")
+
+
+@spec(f"{S_H}::<K, O, A>::is_discrete")
+def h_is_discrete(c, a, st, v):
+    h = a["self"]
+    e = f_and(f_and(("cmp", "eq", t_len(ic_sizes(h.f["s"]))), ("cmp", "eq", t_len(ic_sizes(h.f["t"])))),
+              ("cmp", "eq", inv.values_len(h.f["x"])))
+    bool_iff(c, st, v, e, "is_discrete ⇔ no hyperedges (no source lists, no target lists, no labels)")
